@@ -44,6 +44,7 @@ class _Sym:
     def __init__(self):
         self.reg = []  # (name, symbolic or concrete)
         self.path_tags = []
+        self.choices = []
         self.replaying = None  # list of [name, value] consumed in creation order (native replay)
         self.window = None  # list of ints: every S.int is a solver-chosen *concrete* member of it (text-level harnesses)
         self.float_menu = [0.0, 0.5, -1.5, 1e16, 1e-05]
@@ -51,6 +52,11 @@ class _Sym:
     def reset(self):
         self.reg = []
         self.path_tags = []
+        self.choices = []
+
+    def shard(self, n):
+        """Deterministic shard index of the current path, from the concrete choices made so far."""
+        return sum((i + 1) * int(c) for i, c in enumerate(self.choices)) % n
 
     def _next(self, name):
         if not self.replaying:
@@ -129,7 +135,9 @@ class _Sym:
         x = self.int(name, 0, n - 1)
         for i in range(n - 1):
             if x == i:
+                self.choices.append(i)
                 return i
+        self.choices.append(n - 1)
         return n - 1
 
     def flag(self, name):
